@@ -208,10 +208,11 @@ func actionScenarios(big bool) []*Desc {
 	return out
 }
 
-func exitScenarios() []*Desc {
+func exitScenarios(big bool) []*Desc {
 	var out []*Desc
+	mode := "interrupt"
 	mkd := func(name string, exit []string) *Desc {
-		d := base(name, "interrupt")
+		d := base(name, mode)
 		d.Exit = exit
 		d.Mappings = []MapDesc{{Name: "M0", Keys: km{K1: {60, 0}, K2: {62, 0}}}}
 		acts(d, PA, "panic", OU, "octave_up")
@@ -226,6 +227,43 @@ func exitScenarios() []*Desc {
 	out = append(out, mkd("exit-2-note-action", []string{K1, OU}))
 	out = append(out, mkd("exit-3", []string{AL, K2, OU}))
 	out = append(out, mkd("exit-3-unmapped", []string{AL, X1, X2}))
+	if !big {
+		return out
+	}
+	// thorough: every collision mode, both keys of an action pair in the sequence, a sequence
+	// made of actions only, a note shared by two sequence keys, a sub-handler delivering a sequence key
+	for _, m := range []string{"off", "no_repeat", "retrigger"} {
+		mode = m
+		out = append(out, mkd("exit-1-note", []string{K1}))
+		out = append(out, mkd("exit-2-factory", []string{AL, PA}))
+		out = append(out, mkd("exit-2-note-action", []string{K1, OU}))
+		out = append(out, mkd("exit-3", []string{AL, K2, OU}))
+	}
+	for _, m := range modes {
+		mode = m
+		d := mkd("exit-2-pair", []string{OU, OD})
+		acts(d, OD, "octave_down")
+		d.OctLo = -1
+		out = append(out, d)
+		d = mkd("exit-3-pair-and-panic", []string{OU, OD, PA})
+		acts(d, OD, "octave_down")
+		d.OctLo = -1
+		out = append(out, d)
+		d = mkd("exit-3-actions", []string{CU, MU, LE})
+		d.Mappings = append(d.Mappings, MapDesc{Name: "M1", Keys: km{K1: {61, 1}}})
+		acts(d, CU, "channel_up", MU, "mapping_up", LE, "cc_learning", MN, "multinote")
+		d.ChSet = []int{0, 1}
+		out = append(out, d)
+		d = mkd("exit-2-same-pitch", []string{K1, K2})
+		d.Mappings[0].Keys[K2] = KeyNote{60, 0}
+		d.Mappings[0].Keys[K3] = KeyNote{60, 0}
+		out = append(out, d)
+		d = mkd("exit-2-subhandler", []string{K1, AL})
+		// (the sub-handler's keys are not sequence keys: a second physical key with the code of a
+		// sequence key is outside C14's quantifier - see DESIGN.md 9.5)
+		d.Mappings[0].SubKeys = map[string]map[string]KeyNote{"Touchpad": {K2: {72, 0}, K3: {60, 0}}}
+		out = append(out, d)
+	}
 	return out
 }
 
@@ -312,7 +350,7 @@ func jobsFor(prop, tier string) []job {
 		add(panicAxisScenario("interrupt"), false, cap, "panic")
 		add(panicAxisScenario("no_repeat"), false, cap, "panic")
 	case "C14":
-		for _, d := range exitScenarios() {
+		for _, d := range exitScenarios(big) {
 			add(d, true, cap, "exit")
 		}
 	case "C05":
